@@ -43,6 +43,8 @@ fn disc_list(name: &str) -> Option<Vec<TargetSpec>> {
         "three" => vec![t("p0", "255.255.255.255:0"), t("p1", "[::ffff:1.2.3.4]:1"), t("", "192.0.2.200:25566").with_meta("", "")],
         "same-addr-other-id" => vec![t("x", "10.9.9.9:25565"), t("y", "10.9.9.9:25566"), t("z", "10.9.9.10:25565")],
         "err" => return None,
+        // a large fleet: 3 000 servers (whatever a router does in blocks or with a ceiling shows past the first 1 024)
+        "fleet" => (0..3_000).map(|i| t(&format!("gs-{i}"), &format!("10.{}.{}.{}:{}", 100 + i / 62_500, (i / 250) % 250, i % 250 + 1, 25_000 + i % 1_000)).with_meta("n", &i.to_string())).collect(),
         other => common::machinery(&format!("disc {other}")),
     })
 }
@@ -69,6 +71,9 @@ fn strat_plan(name: &str) -> StratPlan {
         "pick-0" => StratPlan::Pick(0),
         "pick-1" => StratPlan::Pick(1),
         "pick-2" => StratPlan::Pick(2),
+        "pick-1023" => StratPlan::Pick(1_023),
+        "pick-1024" => StratPlan::Pick(1_024),
+        "pick-2999" => StratPlan::Pick(2_999),
         "none" => StratPlan::None,
         "foreign" => StratPlan::Foreign(foreign()),
         "err" => StratPlan::Err,
@@ -327,6 +332,12 @@ fn specs(thorough: bool) -> Vec<Spec> {
             }
         }
     }
+    // a fleet of 3 000 servers, the strategy's choice among the first, around position 1 024 and the very last
+    for f in ["identity", "reverse"] {
+        for st in ["pick-0", "pick-1023", "pick-1024", "pick-2999", "none"] {
+            v.push(Spec { disc: "fleet".into(), filter: f.into(), strat: st.into(), locale: "de_de".into(), table: "en+de+de_at".into(), lat: [0, 0, 0], ka_stall: None, cookie_target: None });
+        }
+    }
     // the Keep Alive of the 16 s tick is only partially accepted by the transport while a routing stage answers
     for (lat, stalls) in [([17_000u64, 0, 0], vec![(1usize, 20_000u64), (4, 20_000), (9, 18_000)]), ([0, 17_000, 0], vec![(3, 20_000)]), ([0, 0, 17_000], vec![(3, 20_000)]), ([17_000, 0, 17_000], vec![(2, 20_000)])] {
         for stall in stalls {
@@ -466,6 +477,38 @@ pub fn run_with(cli: Cli, extra: &dyn Fn(&Report)) -> ! {
     rep.sample(json!({"spec": Spec { disc: "v4".into(), filter: "identity".into(), strat: "none".into(), locale: "de_AT".into(), table: "en+de+de_at".into(), lat: [0, 0, 0], ka_stall: None, cookie_target: None }, "expect": "Disconnect with the 'de' message (de_AT -> de)"}));
     rep.assume("locale keys are compared as exact strings (the statement does not define case folding); when no table exists for the whole chain only 'exactly one Disconnect, no Transfer' is judged");
     rep.assume("Transfer host is compared as an IP address, not as text");
+    // A returning player (Transfer intent, the cookies the router itself issued on the first visit) who now reports
+    // another language and finds no target: the Disconnect is in the language reported on *this* connection.
+    {
+        let mut n = 0u64;
+        for (first_locale, second_locale, want) in [("de_de", "en_us", "no-target-en"), ("en_us", "de_at", "no-target-de"), ("de_de", "fr_fr", "no-target-en"), ("de_de", "de_de", "no-target-de")] {
+            n += 1;
+            let secret = b"c03-returning".to_vec();
+            let mut first = Case::default();
+            first.cfg.auth_secret = Some(secret.clone());
+            first.script = Login { locale: first_locale.into(), ..Default::default() }.steps();
+            let o1 = crate::sim::run(&first);
+            let stored = |k: &str| o1.packets.iter().find_map(|(_, p)| match p {
+                Pkt::StoreCookie { key, payload } if key == k => Some(payload.clone()),
+                _ => None,
+            });
+            let mut second = Case::default();
+            second.cfg.auth_secret = Some(secret);
+            second.script = Login { intent: 3, locale: second_locale.into(), auth_cookie: Some(stored("passage:authentication")), session: stored("passage:session"), ..Default::default() }.steps();
+            second.adapters.strat = StratPlan::None;
+            let o2 = crate::sim::run(&second);
+            let text = o2.packets.iter().find_map(|(_, p)| if let Pkt::ConfDisconnect { reason } = p { Some(reason.clone()) } else { None });
+            if text != Some(json!({"text": want})) || o2.has("Transfer") {
+                rep.violation(Violation {
+                    key: "no-target-text:returning-player".into(),
+                    text: format!("a player who reported {first_locale} on a first visit returns with the router's cookies, reports {second_locale} and finds no target: Disconnect {text:?} (packets {:?}); the message for the locale reported now is {want}", o2.kinds()),
+                    replay: json!({"lookups": "returning-player", "first": first_locale, "second": second_locale}),
+                    weight: 50,
+                });
+            }
+        }
+        rep.set("returning_players_with_another_language", json!(n));
+    }
     extra(&rep);
     rep.finish()
 }
